@@ -4,9 +4,21 @@
 // with the build tag "verif", which no build of the application uses).
 package embedding
 
+// wfEmb: every word vector has the index's dimension (established by LoadWordVectors).
+//@ pure func wfEmb(idx *Index) bool = idx != nil && idx.Dimension >= 0 && idx.Dimension <= 1000000 && (forall w string :: (w in idx.WordVectors) ==> len(idx.WordVectors[w]) == idx.Dimension)
 //@ func (*Index).EmbedQuery
+//@   requires wfEmb(idx)
 //@   modifies nothing
 //@   ensures[C19.embed-fresh] fresh(result)
 //@ func (*Index).SemanticScores
 //@   modifies nothing
 //@   ensures[C19.scores-fresh] fresh(result)
+//@ loop 1
+//@   invariant len(scores) == len(idx.CmdEmbeddings) && fresh(scores)
+//@ func (*Index).EmbedQuery
+//@ loop 1
+//@   invariant len(sum) == idx.Dimension && fresh(sum) && count >= 0
+//@ loop 2
+//@   invariant len(sum) == idx.Dimension && fresh(sum) && count >= 0 && len(vec) == idx.Dimension
+//@ loop 3
+//@   invariant len(sum) == idx.Dimension && fresh(sum)
